@@ -7,8 +7,8 @@ CONFIGS = {
     'thorough': [('lets', ('H_L', 'M_L', 'T_L', 'O_L', 3, 3), 40000)],
 }
 POOL = [0, 1, 2, 3, 1.5, 2.0]
-OWNED = {'error_type', 'accepted', 'no_let_refs', 'meaning_mod_sub', 'sub_annotations', 'registers', 'macros_kept',
-         'lets_kept', 'natives_kept', 'imports_carried'}
+OWNED = {'accepted', 'no_let_refs', 'meaning_mod_sub', 'sub_annotations', 'registers', 'macros_kept',
+         'lets_kept', 'natives_kept', 'imports_carried', 'refs_follow_decls'}
 
 
 def owned(site):
